@@ -177,7 +177,7 @@ fn props(cfg: &Cfg) -> WriterProperties {
         .set_write_page_header_statistics(cfg.flags & 8 != 0);
     if cfg.bloom != 0 {
         let (ndv, fpp) = BLOOM[cfg.bloom as usize];
-        b = b.set_bloom_filter_enabled(true).set_bloom_filter_ndv(ndv).set_bloom_filter_fpp(fpp);
+        b = b.set_bloom_filter_enabled(true).set_bloom_filter_max_ndv(ndv).set_bloom_filter_fpp(fpp);
     }
     b.build()
 }
@@ -736,6 +736,7 @@ fn run_case_full(line: &str) -> (String, Vec<String>) {
                 fails = oracle(kind, &cfg, &batches, &rb);
                 let nulls = match (cfg.level, rb.null_count) {
                     (0, _) => "x".to_string(),
+                    _ if rb.num_rows == 0 => "x".to_string(),
                     (_, Some(n)) => n.to_string(),
                     (_, None) => "none".to_string(),
                 };
@@ -1021,6 +1022,20 @@ fn value_tags(kind: Kind, cfg: &Cfg, batches: &[Batch]) -> String {
         if lens.len() >= 2 {
             tags.push_str(" kf:decimal-bytearray-unequal-len");
         }
+        // BYTE_ARRAY decimal whose statistics get byte-truncated
+        let st = cfg.level != 0 && cfg.stl != 0 && vals.iter().any(|v| v.len() > cfg.stl);
+        let ci = cfg.level == 2 && cfg.cil != 0 && vals.iter().any(|v| v.len() > cfg.cil);
+        if st || ci {
+            tags.push_str(" kf:decimal-bytearray-truncated");
+        }
+    }
+    if matches!(kind, Kind::Utf8 | Kind::Bin | Kind::Flba(_))
+        && cfg.level == 2
+        && cfg.cil != 0
+        && vals.len() >= 2
+        && vals.iter().any(|v| v.len() > cfg.cil)
+    {
+        tags.push_str(" kf:index-truncation-order");
     }
     tags
 }
@@ -1036,7 +1051,8 @@ fn gen_case(rng: &mut Rng) -> (String, String) {
         let rowlimit = *rng.pick(&[1usize, 2, 3, 20000]);
         let flags = (rng.usize(4) as u32) | if rng.bool() { 8 } else { 0 };
         let cfg = Cfg { stl, cil, level: 2, wbs, rowlimit, flags, bloom: 0 };
-        let mut batches = gen_batches(rng, kind, false, rng.chance(1, 2));
+        let same = rng.chance(1, 2);
+        let mut batches = gen_batches(rng, kind, false, same);
         if rng.chance(1, 5) {
             // single value: pure truncation case
             batches = vec![vec![Some(gen_value(rng, kind))]];
@@ -1062,7 +1078,8 @@ fn gen_case(rng: &mut Rng) -> (String, String) {
         let flags = (rng.usize(4) as u32) | if nullable { 4 } else { 0 } | if rng.bool() { 8 } else { 0 };
         let bloom = if rng.bool() { 0 } else { 1 + rng.usize(4) as u8 };
         let cfg = Cfg { stl, cil, level, wbs, rowlimit, flags, bloom };
-        let batches = gen_batches(rng, kind, nullable, rng.chance(1, 2));
+        let same = rng.chance(1, 2);
+        let batches = gen_batches(rng, kind, nullable, same);
         let line = format!(
             "C07 file {} {} {} {} {} {} {} {} {} {}",
             api, kind_name(kind), stl, cil, level, wbs, rowlimit, flags, bloom, show_batches(&batches)
@@ -1097,6 +1114,39 @@ fn gen_case(rng: &mut Rng) -> (String, String) {
     }
 }
 
+/// class of an oracle failure message (appended to the tags as `fail:<class>`)
+fn fail_class(msg: &str) -> &'static str {
+    if msg.contains("does not bound") || msg.contains("flagged exact") || msg.contains("only one of min/max") {
+        "bound"
+    } else if msg.contains("boundary order") {
+        "order"
+    } else if msg.contains("bloom") {
+        "bloom"
+    } else if msg.contains("missing") {
+        "missing"
+    } else if msg.contains("first_row_index") || msg.contains("offset index") || msg.contains("pages hold") || msg.contains("column index has") {
+        "offset"
+    } else {
+        "count"
+    }
+}
+
+/// record a case: the case tags carry every failure class seen on it, each oracle failure only its own
+fn record(sink: &mut Sink, line: String, ans: String, fails: Vec<String>, tags: &str) {
+    let mut classes: Vec<&str> = fails.iter().map(|f| fail_class(f)).collect();
+    classes.sort();
+    classes.dedup();
+    let mut case_tags = tags.to_string();
+    for c in &classes {
+        case_tags.push_str(&format!(" fail:{}", c));
+    }
+    for f in fails {
+        let t = format!("{} fail:{}", tags, fail_class(&f));
+        sink.oracle_failure(line.clone(), f, &t);
+    }
+    sink.case(line, ans, &case_tags);
+}
+
 fn t_kind(k: Kind) -> &'static str {
     match k {
         Kind::I32 => "i32",
@@ -1124,10 +1174,7 @@ fn main() {
             let (ans, fails) = run_case_full(&line);
             // recompute value tags so that known-finding keys also apply on replay
             let tags = replay_tags(&line);
-            for f in fails {
-                sink.oracle_failure(line.clone(), f, &tags);
-            }
-            sink.case(line, ans, &tags);
+            record(&mut sink, line, ans, fails, &tags);
         }
     } else {
         let mut rng = Rng::new(args.seed ^ 0xC07C07);
@@ -1136,10 +1183,7 @@ fn main() {
             let (line, tags) = gen_case(&mut rng);
             let (ans, fails) = run_case_full(&line);
             debug_assert_eq!(ans, run_case(&line));
-            for f in fails {
-                sink.oracle_failure(line.clone(), f, &tags);
-            }
-            sink.case(line, ans, &tags);
+            record(&mut sink, line, ans, fails, &tags);
         }
     }
     sink.finish();
